@@ -12,7 +12,7 @@ func init() {
 		Level: "exploration",
 		Rule: "cases = generated (logger name, message, severity, caller flag, 0-24 attributes with unique hostile keys and values of every supported kind, groups nested <= 4) " +
 			"from PCG(seed, property, index); each record is captured at a recording writer and decoded by an independent strict JSON walker; " +
-			"Round 12: 7% of the records go through Infof / Warnf / Errorf (with and without operands, percent signs escaped); a quarter of the caller-flag records have no frame behind them (WriteThru with pc 0, a skip count of 1000: an empty or absent caller member, valid JSON all the same). non-trivial = record decoded and matched AND (has attributes or a non-plain message); distinct = by payload bytes",
+			"Round 12: 7% of the records go through Infof / Warnf / Errorf (with and without operands, percent signs escaped); a quarter of the caller-flag records have no frame behind them (WriteThru with pc 0, a skip count of 1000: an empty or absent caller member, valid JSON all the same). Round 13: three registered titles with capital letters (the expected name is the title that was passed); a severity gated like Always with blank messages; one group object under two parent groups of a record. non-trivial = record decoded and matched AND (has attributes or a non-plain message); distinct = by payload bytes",
 		Assumptions: []string{"encoding/json's scanner and decoder (go1.23.5) as the reference for RFC 8259 validity", "user marshallers / value stringers are outside the domain"},
 		Floors:      map[string]int64{"records_decoded": 100, "records_through_the_printf_style_entry_points": 100, "records_without_a_frame_with_the_caller_flag_on": 100},
 		Jobs: func(tier string, seed int64) []Job {
@@ -33,7 +33,7 @@ func init() {
 		Level: "exploration",
 		Rule: "cases = generated logfmt records (production process mode): logger name, any-bytes message, severity, caller flag, 0-24 attributes with legal unique logfmt keys " +
 			"(random leading letter so that groups sort first/middle/last) and values of every supported kind incl. []byte, groups nested <= 3; each payload is tokenised by an independent " +
-			"logfmt tokenizer (strconv.Unquote for quoted values) and every pair compared with what was logged; non-trivial = decoded and matched AND (has attributes or non-plain message); distinct = by payload bytes. " +
+			"logfmt tokenizer (strconv.Unquote for quoted values) and every pair compared with what was logged; Round 13: lines (the empty one included) through a std log bridge on a logfmt logger. non-trivial = decoded and matched AND (has attributes or non-plain message); distinct = by payload bytes. " +
 			"Sub-workload handler: logfmt records through the library's log/slog handler, derived in 0-15+ WithGroup/WithAttrs steps, the record through the first of 2-4 siblings; expected tree by log/slog's rules. " +
 			"Follow-ups in main: parent and child binding one key; one group object used twice in a record",
 		Assumptions: []string{"strconv.Unquote (go1.23.5) decodes what a logfmt reader decodes", "production process mode (the multi-line error dump of testing mode is outside the statement)"},
@@ -57,7 +57,7 @@ func init() {
 		Rule: "cases = generated colored records via WriteThru (fixed instant and frame): 15 severities (built-in, registered fg / fg+bg / no colour, unregistered), tag width 1-5, minimal width 16-80, " +
 			"single/multi-line messages with/without trailing newline (70% in the layout domain, 30% with markup or other controls), 0-24 attributes of every kind incl. errors and groups; both process modes. " +
 			"Oracles: SGR terminal-state simulator (default state at every LF and at the end), escape/control skeleton compared with the same record logged with neutralised values, layout parser over the stripped text. " +
-			"Round 12: under go test errors that carry a stack trace stay such (their dump is judged); 12% of the loggers have a timestamp layout of their own (blanks, commas, zone abbreviations); every eleventh case has a chunking destination (48 bytes per call, no error) in front of the recording one. non-trivial = all clauses passed on a decoded record; distinct = by payload bytes Further jobs: processes with the no-color switch on, with NO_COLOR set, with the working directory removed under them. Every fourth caller case also issues a record through one of 14 public entry points from a statement of the harness and checks that the record ends with that call site; 4% of the records carry a value whose MarshalText fails with a hostile error text (judged by the escape/control skeleton only).",
+			"Round 12: under go test errors that carry a stack trace stay such (their dump is judged); 12% of the loggers have a timestamp layout of their own (blanks, commas, zone abbreviations); every eleventh case has a chunking destination (48 bytes per call, no error) in front of the recording one. Round 13: all eight combinations of the date/time flags (a record begins with a non-empty timestamp); an attribute list as the value of a plain key; production processes started with DEBUG=1 / DEBUG=on. non-trivial = all clauses passed on a decoded record; distinct = by payload bytes Further jobs: processes with the no-color switch on, with NO_COLOR set, with the working directory removed under them. Every fourth caller case also issues a record through one of 14 public entry points from a statement of the harness and checks that the record ends with that call site; 4% of the records carry a value whose MarshalText fails with a hostile error text (judged by the escape/control skeleton only).",
 		Assumptions: []string{"ShortTag and Source.Extract of the library are used to build the expected tag and caller text (their own correctness is C17 / C14 / C18)", "under go test, error texts are generated without control bytes (the multi-line dump prints the error text verbatim by design)"},
 		Floors:      map[string]int64{"records_decoded": 100, "layout_checked": 50, "sgr_sequences_simulated": 1000},
 		Jobs: func(tier string, seed int64) []Job {
@@ -82,7 +82,7 @@ func init() {
 		Level: "exploration",
 		Rule: "cases = generated logger chains of depth 1-4 (own-attribute lists of 0-20 incl. empty ones at every position, set through SetAttrs/SetAttrs1/Set), 0-5 registered context keys (string and Stringer, present/absent, nil context), " +
 			"0-64 call arguments (Attr objects and key,value pairs) over a small key space so that keys collide, groups with colliding members, inherit flag on/off, all three formats; every value carries its source tag; " +
-			"the decoded ordered (dotted key, value) list must equal the reference merge (last occurrence wins, ascending order at every level). Round 12: two cases in five with context keys run under a cancelled / expired context that still holds its values; in 20% of the cases the process's default logger (no ancestor of the chain) holds attributes of its own. non-trivial = decoded, matched and at least one attribute; distinct = by the source lists",
+			"the decoded ordered (dotted key, value) list must equal the reference merge (last occurrence wins, ascending order at every level). Round 12: two cases in five with context keys run under a cancelled / expired context that still holds its values; in 20% of the cases the process's default logger (no ancestor of the chain) holds attributes of its own. Round 13: context keys whose printed name is empty (JSON); records through Log(ctx, log/slog level, ...). non-trivial = decoded, matched and at least one attribute; distinct = by the source lists",
 		Assumptions: []string{"the decoders of C04/C05/C06 (independent JSON walker, logfmt tokenizer, SGR stripper)"},
 		Floors:      map[string]int64{"records_decoded": 100, "records_with_13plus_attrs": 20, "inheriting_child_without_own_attrs": 5},
 		Jobs: func(tier string, seed int64) []Job {
@@ -119,7 +119,7 @@ func init() {
 		Level: "exploration",
 		Rule: "a reference model of the writer configuration (normal list, error list, per-level lists, package defaults for a logger never given writers) is advanced with each operation sequence; the sequence is applied to a fresh root and to a child of a configured parent, as methods and (when every operation has one) as New(...) options; " +
 			"then - for the method form after EVERY operation, so that records emitted between reconfigurations are part of the history - one probe record with a unique id is issued at each of 20 severities (built-ins; custom levels with the error device - also with values 64, 1000 and -5 and one that is gated like Info -, without it, gated like Error but without the error device, unregistered) through LogAttrs, 5 more through verbs and Print/Println and 4 blank-line forms and the per-writer Write counts (recording writers of 6 shapes, fds 1/2 redirected onto files) must equal the selected list; LevelSettable destinations must have been told the severity before each Write. " +
-			"exh: ALL sequences up to the length bound over a reduced alphabet (40 operations over 4 writers incl. a real *os.File); rand: random sequences of 3-10 operations over the full alphabet (8 writers of 7 shapes, 8 levels, plus children derived with WithWriter / WithErrorWriter and reconfigured, which must leave the receiver alone). A failing sequence is shrunk by dropping operations. non-trivial = every judged (logger kind, form, sequence); distinct = by that triple",
+			"exh: ALL sequences up to the length bound over a reduced alphabet (40 operations over 4 writers incl. a real *os.File); rand: random sequences of 3-10 operations over the full alphabet (8 writers of 7 shapes, 8 levels, plus children derived with WithWriter / WithErrorWriter and reconfigured, which must leave the receiver alone). A failing sequence is shrunk by dropping operations. Round 13: probes that carry an error with a stack trace (and a go-test job, where its details follow the record); two pool members are size-capped sinks in every other sequence (40 bytes per Write, no error); after every sequence another logger that was reset to the package defaults has what its getters hand out closed, and a never-configured logger is probed. non-trivial = every judged (logger kind, form, sequence); distinct = by that triple",
 		Assumptions: []string{"a removal that meets several copies of the writer may leave k-1 or 0 copies", "the package-level default writer itself is not reconfigured"},
 		Floors:      map[string]int64{"probes": 5000, "write_events": 3000, "fallback_bytes": 1000, "levelsettable_writes": 100},
 		Exhaustive:  func(string) bool { return true },
@@ -140,7 +140,7 @@ func init() {
 		Rule: "cases = (format, flag subset, logger level, 1-3 destinations per class + optional per-level writer + decoys, root or child, entry point among 25 verbs / Context verbs / LogAttrs / Logit / package functions / six Println forms / blank Print, " +
 			"free-form argument list of 0-2000 items: key/value pairs of every kind, typed nils, non-string keys, dangling keys, reserved and empty keys, Attr, Attrs, []Attr with nil members, user-defined Attr, groups nested to depth 13, empty groups; message of any bytes up to ~200 kB). " +
 			"Oracle: escaping panic = violation; per-writer Write counts == the selected destinations iff admitted, else zero everywhere; every payload is one whole record (newline-terminated, carries the call id exactly once, JSON valid / logfmt starts time= on one line / colored starts with the timestamp colour); blank Print/Println == exactly one newline byte. " +
-			"non-trivial = every judged call; distinct = by case index (PRNG stream)",
+			"Round 13: lines through a std log bridge on the logger (the empty line included); 12% of the calls run while the process-wide debug mode is on (another logger was set to Debug) with the logger under test as the default logger; 12% carry an instant in the last half microsecond of its second. non-trivial = every judged call; distinct = by case index (PRNG stream)",
 		Assumptions: []string{"values whose own methods panic and cyclic values are not generated", "admission by the C01 rule, destination selection by the C03 model"},
 		Floors:      map[string]int64{"calls_admitted": 500, "calls_not_admitted_silent": 100, "records_delivered_whole": 500},
 		Jobs: func(tier string, seed int64) []Job {
@@ -160,7 +160,7 @@ func init() {
 			"mutex-protected recording writers with optional Gosched / sleep inside Write; every call carries its id in the message and in every attribute, plus a shared unsorted Group at the call site, a shared Group at logger level, a shared error value, " +
 			"a marshaller spy that records which pooled PrintCtx formatted it, and occasional 150-350 extra attributes (jump above the pooled size hint). Runs are executed twice: without and with the Go race detector (GORACE halt_on_error=0, reports parsed from the log files, deduplicated by the logg frames of the two stacks). " +
 			"side: the same oracles for 600-1500 calls next to (a) another logger whose destination keeps reporting errors, with caller information switched on, (b) a log/slog.Logger derived with .With(...) whose records mostly have no attributes of their own, (c) a process that changed its working directory and issues half of its records through reflection (caller frame inside the Go installation). " +
-			"Oracles: any DATA RACE report with a logg frame; every payload decodes to the complete record of exactly one call; multiset of delivered ids == multiset of issued ids per logger. Round 12: JSON loggers also get a shared Group and a shared Attrs list in VALUE position; a quarter of the loggers have io.Discard as their normal device while the error device or a per-level destination records; side/frontend starts with bases of 3, 5 and 7 derivation entries and compares the shared group value with what the application built; side/closed-elsewhere reads stdout and stderr back. non-trivial = run with all records decoded; distinct = by run configuration side also has the scenario closed-elsewhere (loggers on the process's stdout while every goroutine makes, uses and closes request loggers of its own: every record arrives on stdout) and, in the failing scenario, a healthy destination behind the failing one that must get every record; a case whose calls do not return within 2 minutes ends the child and makes the run inconclusive.",
+			"Oracles: any DATA RACE report with a logg frame; every payload decodes to the complete record of exactly one call; multiset of delivered ids == multiset of issued ids per logger. Round 12: JSON loggers also get a shared Group and a shared Attrs list in VALUE position; a quarter of the loggers have io.Discard as their normal device while the error device or a per-level destination records; side/frontend starts with bases of 3, 5 and 7 derivation entries and compares the shared group value with what the application built; side/closed-elsewhere reads stdout and stderr back. Round 13: the failing destination of side/failing says EAGAIN / wrapped EINTR / a plain error; every stress call carries two uncomparable application attributes; calls whose only attribute is an instant called time; the shared frontend base has 1, 3, 5, 1, 7, 1 ... derivation entries and ends in the unsorted step. non-trivial = run with all records decoded; distinct = by run configuration side also has the scenario closed-elsewhere (loggers on the process's stdout while every goroutine makes, uses and closes request loggers of its own: every record arrives on stdout) and, in the failing scenario, a healthy destination behind the failing one that must get every record; a case whose calls do not return within 2 minutes ends the child and makes the run inconclusive.",
 		Assumptions: []string{"the Go race detector reports only races on executions it sees (happens-before based, no false positives)", "concurrent reconfiguration of a logger is outside the claim and not generated"},
 		Floors:      map[string]int64{"records_decoded": 5000, "max:max_writes_in_flight": 2, "goroutine_switches_in_arrival_order": 100, "print_contexts_used_by_several_goroutines": 1, "side_records_decoded": 3000},
 		Jobs: func(tier string, seed int64) []Job {
@@ -200,7 +200,7 @@ func init() {
 		Level: "exploration", 
 		Rule: "one case = one history of 5-60 operations (New named/anonymous/colliding with options, 11 With* calls, 11 Set* calls incl. writers, skip, context keys) applied to random loggers of a growing forest (two detached roots and a fresh default logger); a reference tree model is advanced in lock-step. " +
 			"After EVERY operation: (isolation, model-free) every logger other than the receiver of a Set* emits byte-identical WriteThru probe output to the same destination as before; (model) every logger's Level/JSONMode/ColorMode/Skip/Name/Parent/Root and its decoded probe (format class, name, timestamp in the modelled zone/layout, attributes, destination incl. redirected stdout) equal the model; " +
-			"context keys through a PrintContext probe; Each/Sublogger against the model subtree. Sub-workload deflevel (own pristine processes, both process modes): package New starts parentless, colored, at the package default level (Warn in production, Debug under go test) and follows SetLevel - also when the default logger's own level was set to the next argument first (a Set on one logger) and in production processes whose environment carries DEBUG with a value that says no or whose command line carries an argument that starts with -bench. Names include ones as long as an import path; Sublogger is also asked for a name BEFORE it exists, from every ancestor, and again after its creation. Round 12: operations Close() on a logger that never got writers; registered severities with a treated-as entry as thresholds. non-trivial = completed history; distinct = by history big: trees that are big in one dimension (4090-9000 direct children of one logger, anonymous or named; derivation chains of 99-1000 links; bushy trees of 1600-5600 loggers) against the creation history kept by the harness: Each from several starting points visits every logger of the subtree exactly once at its depth, Parent/Root are those of the creation, Sublogger(name) and New(name) hand out the existing child (the late-coming anonymous ones included)",
+			"context keys through a PrintContext probe; Each/Sublogger against the model subtree. Sub-workload deflevel (own pristine processes, both process modes): package New starts parentless, colored, at the package default level (Warn in production, Debug under go test) and follows SetLevel - also when the default logger's own level was set to the next argument first (a Set on one logger) and in production processes whose environment carries DEBUG with a value that says no or whose command line carries an argument that starts with -bench. Names include ones as long as an import path; Sublogger is also asked for a name BEFORE it exists, from every ancestor, and again after its creation. Round 12: operations Close() on a logger that never got writers; registered severities with a treated-as entry as thresholds. Round 13: Close() on loggers of the tree that own no writers (drawn three times as often); WithSkip on a logger that has writers followed by AddWriter on the child. non-trivial = completed history; distinct = by history big: trees that are big in one dimension (4090-9000 direct children of one logger, anonymous or named; derivation chains of 99-1000 links; bushy trees of 1600-5600 loggers) against the creation history kept by the harness: Each from several starting points visits every logger of the subtree exactly once at its depth, Parent/Root are those of the creation, Sublogger(name) and New(name) hand out the existing child (the late-coming anonymous ones included)",
 		Assumptions: []string{"default flags (LlocalTime set): an unset UTC mode means the instant's own zone", "SetTimeFormat is only called with explicit non-empty layouts"},
 		Floors:      map[string]int64{"operations": 2000, "isolation_comparisons": 10000, "model_comparisons": 10000, "lookups": 100, "default_level_checks": 10, "big_tree_loggers": 20000},
 		Jobs: func(tier string, seed int64) []Job {
@@ -317,7 +317,7 @@ func init() {
 		Variants: []string{"verbose"},
 		Rule: "the complete matrix {113 call sites (4 of them the Verbose entry points, which print only in a build of the library with its tag verbose: their 216 cells are run by a build variant of the workload; one with an attribute named caller; 3 of them printf verbs with %w / several verbs / none; 3 in files whose names hold quotation marks, backslashes or letters outside ASCII; 17 at chosen line numbers 1, 9|10|11, 99|100|101 ... 65535|65536, 10^6 through //line directives; the line-number flag is cleared for every third cell): 30 native verbs/Context verbs/LogAttrs/Logit/Log/printf verbs, 24 package-level functions, 5 Println forms whose first argument is not a string (native and package-level), 6 application-side facades whose type/package names collide with library or std names (applog.(*Logger).Infof/Warnf/Println over the std log bridge, a facade package named slog with a type Entry and a method logContext over the native API; the record is attributed skip minus facade depth frames above the call statement), 5 sites that also log an error carrying its own stack trace (errors.v3), 9 log/slog adapter forms (Logger.Info/WarnContext/Log/LogAttrs, With(..).Info, slog.Info after SetDefault, Log / LogAttrs at the library's own log/slog levels LevelFatal and LevelPanic and at an application level above Error), one helper kept in another source file and inlined into the calling statement (its record belongs to the helper's file, with skip 1 to the caller's), 4 std log bridge forms (Print/Printf/Println/Output)} x {json, logfmt, color} x {skip 0..4 set by WithSkip or SetSkip, with a wrapper chain of matching depth} x " +
 			"{root held as Logger interface, root as *Entry, child | default logger for package functions} x {inlinable, noinline wrappers; direct chains and closure chains}. Each call site is a one-line function literal that also records its own logical call stack (runtime.CallersFrames) and is executed TWICE in a row (a second record from the same statement must be attributed like the first); a WithSkip child is used only after a sibling with another skip count was derived from the same parent; " +
-			"the caller decoded from the record (file made absolute, line, function) must equal the frame `skip` logical frames above the call statement. conc: 2-16 goroutines log 300-1500 records each at the same time, each from a function of its own; every record names the function of its own call site. thorough additionally builds the workload with -gcflags=all=-l. non-trivial = confirmed attribution; distinct = by cell Every cell issues its record three times: as is, after WithSkip(n) was evaluated again for the same count, and through a child derived from the logger that carries the skip count (attributed to the statement itself: a skip count is not inherited); every 50th cell first issues records from 320 other call sites. The whole matrix is run a second time in processes whose FIRST log/slog handler record came from a wrapping helper (own runtime.Callers, NewRecord, Handler().Handle); a third of the bridge cells first recover a panic through a second bridge built on a decorating logger.",
+			"the caller decoded from the record (file made absolute, line, function) must equal the frame `skip` logical frames above the call statement. conc: 2-16 goroutines log 300-1500 records each at the same time, each from a function of its own; every record names the function of its own call site. thorough additionally builds the workload with -gcflags=all=-l. Round 13: the matrix once more in processes whose working directory was removed; every seventh cell makes its logger with another logger (skip count 3) as an attribute value. non-trivial = confirmed attribution; distinct = by cell Every cell issues its record three times: as is, after WithSkip(n) was evaluated again for the same count, and through a child derived from the logger that carries the skip count (attributed to the statement itself: a skip count is not inherited); every 50th cell first issues records from 320 other call sites. The whole matrix is run a second time in processes whose FIRST log/slog handler record came from a wrapping helper (own runtime.Callers, NewRecord, Handler().Handle); a third of the bridge cells first recover a panic through a second bridge built on a decorating logger.",
 		Assumptions: []string{"runtime.CallersFrames over a 16-slot Callers buffer gives the true logical stack at the call site", "privacy path flags are off so that the reported file can be compared (C18 covers them)"},
 		Floors:      map[string]int64{"attributions_confirmed": 1000},
 		Exhaustive:  func(string) bool { return true },
@@ -363,7 +363,7 @@ func init() {
 		Prop:  "C16",
 		Level: "exploration",
 		Rule: "cases = (instant: year 1-9999, every sub-second pattern, 6 fixed offsets incl. odd minutes + 5 named zones from the embedded tzdata; all 8 date/time/microseconds flag combinations x LlocalTime on/off; UTC mode unset / false / true; no logger layout or one of 14 custom layouts; json/logfmt/color) logged through WriteThru with that instant; " +
-			"the timestamp text is extracted from the record and must equal instant.In(zone).Format(layout) with zone = UTC iff UTC mode or (unset and LlocalTime clear), layout = the logger's, else the documented table for the flags (any exported layout for the two combinations the table does not list); layouts with full date, time and numeric zone must parse back to the instant truncated to the layout's precision. Round 12: a fifth of the unset-mode cases go through a WithJSONMode / WithColorMode child of a parent that has a layout and a zone mode of its own. non-trivial = matched timestamp; distinct = by (text, layout, format)",
+			"the timestamp text is extracted from the record and must equal instant.In(zone).Format(layout) with zone = UTC iff UTC mode or (unset and LlocalTime clear), layout = the logger's, else the documented table for the flags (any exported layout for the two combinations the table does not list); layouts with full date, time and numeric zone must parse back to the instant truncated to the layout's precision. Round 12: a fifth of the unset-mode cases go through a WithJSONMode / WithColorMode child of a parent that has a layout and a zone mode of its own. Round 13: the package's own layouts pinned explicitly and layouts ending in a literal Z joined the layout list. non-trivial = matched timestamp; distinct = by (text, layout, format)",
 		Assumptions: []string{"Go's time.Format/time.Parse (go1.23.5) as the reference for layouts", "SetTimeFormat given several layouts: the last non-empty one is the logger's layout (how the variadic setter is written)"},
 		Floors:      map[string]int64{"timestamps_extracted": 1000, "parsed_back": 100},
 		Jobs: func(tier string, seed int64) []Job {
@@ -375,7 +375,7 @@ func init() {
 		Level: "exploration",
 		Rule: "one case = one history in its own child process (the registry cannot be reset; index 0 is the pristine registry): 1-30 RegisterLevel calls with values -50..70 incl. collisions, titles in lower/Title/UPPER case incl. built-in names, aliases and already registered titles, every subset of the options (short tags with a missing width, treat-as, error device, colour fg / fg+bg). " +
 			"A model of the registry says which calls must be refused (used value, exactly used title; a title differing only in case may go either way). After a refusal EVERY observable (AllLevels, names, 5 tag widths, text marshalling, gating matrix against 12 logger levels, routing and bytes of a colored probe, parse results over a name universe) must be unchanged. " +
-			"After every call, for every built-in / registered level: ParseLevel(String(l)) == l, text and JSON round trips (methods and through encoding/json), ShortTag(1..5) = custom tag or exactly n characters, gating == treated-as rule, routing == error device iff requested, title resolves, built-in names still resolve. Round 12: every fourth route probe adds and removes a writer for the level itself; 12% of the steps sort the slice AllLevels() handed out. non-trivial = completed history; distinct = by history",
+			"After every call, for every built-in / registered level: ParseLevel(String(l)) == l, text and JSON round trips (methods and through encoding/json), ShortTag(1..5) = custom tag or exactly n characters, gating == treated-as rule, routing == error device iff requested, title resolves, built-in names still resolve. Round 12: every fourth route probe adds and removes a writer for the level itself; 12% of the steps sort the slice AllLevels() handed out. Round 13: titles with a multi-byte character and an invalid byte; the error-device option with several values and with none. non-trivial = completed history; distinct = by history",
 		Assumptions: []string{"ASCII titles", "a title that differs only in case from a used name may be refused or accepted"},
 		Floors:      map[string]int64{"register_calls": 500, "registrations_accepted": 100, "refusals_checked_for_side_effects": 50, "roundtrips": 5000, "custom_levels_probed": 500},
 		Jobs: func(tier string, seed int64) []Job {
@@ -388,7 +388,7 @@ func init() {
 		Rule: "one case = one mapping table built by a random add/remove history (11 overlapping string prefixes incl. nested ones, prefixes under $HOME, with spaces and non-ASCII; 3 regexp mappings; the initial home and cwd entries stay) x the two privacy flags, then 12 queries (under a prefix, the prefix itself, near misses like /srvx, regexp territory, outside everything, relative/empty/very long/.. paths, below cwd), " +
 			"each query asked 32 times through Safety and SafetyFiles because the mapping table is a Go map with randomised iteration order - the evidence counts queries whose output depends on that order. Oracle: no panic; with the privacy flag a path component-wise under a protected prefix is never reported equal to or starting with that prefix and starts with an applicable short form (or is a relative path to the same file); " +
 			"regexp-protected prefixes likewise when the regexp flag is on; a path that no mapping string-prefixes and no regexp matches is returned unchanged or as a strictly shorter relative path resolving to the same file. The caller field of emitted records is checked with the harness's own source directory registered. Keys written with a trailing separator cover what lies below them. " +
-			"Sub-workload generated: 54 cells {3 functions below //line directives with absolute file names} x {3 formats} x {3 short forms} x {root, child}, in the ordinary build, under go test and in a -trimpath build: neither the caller field nor Safety of the same name reports the registered directory. non-trivial = judged query; distinct = by (path, table, flags)",
+			"Sub-workload generated: 54 cells {3 functions below //line directives with absolute file names} x {3 formats} x {3 short forms} x {root, child}, in the ordinary build, under go test and in a -trimpath build: neither the caller field nor Safety of the same name reports the registered directory. Round 13: paths that begin with what an unanchored rule matches; removal of registered rules and of the built-in volume rule (by pattern or by resetting the regexp table). non-trivial = judged query; distinct = by (path, table, flags)",
 		Assumptions: []string{"replacements are non-empty and not absolute paths", "ResetKnownPathMapping and removal of the home / cwd entries are not generated", "paths that merely string-prefix-match a key without lying under it (/srvx for /srv) are unconstrained"},
 		Floors:      map[string]int64{"queries": 10000, "caller_fields_checked": 20, "caller_fields_of_generated_code_checked": 100},
 		Variants:    []string{"trimpath"},
